@@ -172,7 +172,15 @@ func (e *Engine) conjunct(c []Token, filters *[]string) (pred, bool) {
 		switch {
 		case col == "ledger" && op == "=" && val.Kind == TString:
 			want := val.Text
-			return func(Row) bool { return want == e.Ledger }, true
+			return func(r Row) bool {
+				// a table shared by several ledgers carries the ledger of each row; otherwise all rows are the engine's ledger's
+				if own, ok := r["ledger"].(string); ok {
+					return own == want
+				}
+				return want == e.Ledger
+			}, true
+		case col == "idempotency_key" && op == "=" && val.Kind == TString:
+			return func(r Row) bool { s, _ := r["idempotency_key"].(string); return s == val.Text }, true
 		case col == "reference" && op == "=" && val.Kind == TString:
 			*filters = append(*filters, txt)
 			return func(r Row) bool { s, _ := r["reference"].(string); return s == val.Text }, true
